@@ -1,4 +1,4 @@
-(** C07 — lemmas about the archive model (filled in stage b). *)
+(** C07 — lemmas about the archive / loader model. *)
 From Akita Require Import Lib.Base Lib.KeySort C07.Model.
 From Coq Require Import Permutation Sorted.
 Local Open Scope N_scope.
@@ -14,3 +14,353 @@ Lemma port_overflow_old :
   load_entity_old overflow_cfg (EPort 1 [] 1 []) overflow_payload = Panic /\
   load_entity overflow_cfg (EPort 1 [] 1 []) overflow_payload = Err EOverflow.
 Proof. split; reflexivity. Qed.
+
+(* ------------------------------------------------------------------ no panic *)
+
+Definition no_panic {A} (o : outcome A) : Prop := o <> Panic.
+
+Lemma decode_msgs_no_panic cfg l : decode_msgs cfg l <> Panic.
+Proof.
+  induction l as [|v l IH]; cbn [decode_msgs]; [discriminate|].
+  destruct (negb (mem_str (lv_tag v) (msg_types cfg))); [discriminate|].
+  destruct (negb (lv_ok v)); [discriminate|].
+  destruct (decode_msgs cfg l); [discriminate|discriminate|contradiction].
+Qed.
+
+Lemma load_buffer_no_panic cfg cap mism bc : load_buffer cfg cap mism bc <> Panic.
+Proof.
+  unfold load_buffer. destruct (negb (bc_cap bc =? cap)%Z); [discriminate|].
+  destruct (bc_elems bc) as [l|]; [|discriminate].
+  pose proof (decode_msgs_no_panic cfg l) as H.
+  destruct (decode_msgs cfg l) as [ms|e|]; [|discriminate|contradiction].
+  destruct (cap <? Z.of_nat (length ms))%Z; discriminate.
+Qed.
+
+Lemma decode_evs_no_panic cfg l : decode_evs cfg l <> Panic.
+Proof.
+  induction l as [|v l IH]; cbn [decode_evs]; [discriminate|].
+  destruct (negb (mem_str (vv_tag v) (evt_types cfg))); [discriminate|].
+  destruct (vv_dec v) as [[[t s] h]|]; [|discriminate].
+  destruct (decode_evs cfg l); [discriminate|discriminate|contradiction].
+Qed.
+
+Lemma decode_events_no_panic cfg hs o : decode_events cfg hs o <> Panic.
+Proof.
+  unfold decode_events. destruct o as [l|]; [|discriminate].
+  pose proof (decode_evs_no_panic cfg l) as H.
+  destruct (decode_evs cfg l) as [evs|e|]; [|discriminate|contradiction].
+  destruct (forallb _ evs); discriminate.
+Qed.
+
+Lemma load_storage_no_panic c u words units : load_storage c u words units <> Panic.
+Proof.
+  unfold load_storage. destruct words as [|c' [|u' rest]]; try discriminate.
+  destruct (negb (c' =? c)); [discriminate|]. destruct (negb (u' =? u)); [discriminate|].
+  destruct rest as [|n r]; [discriminate|]. destruct (N.of_nat (length units) <? n); discriminate.
+Qed.
+
+Lemma load_entity_no_panic cfg e0 p : load_entity cfg e0 p <> Panic.
+Proof.
+  unfold load_entity, load_entity_with. destruct e0.
+  - destruct q1; [|discriminate]. destruct q2; [|discriminate].
+    destruct p; try discriminate.
+    pose proof (decode_events_no_panic cfg handlers prim) as H1.
+    destruct (decode_events cfg handlers prim); [|discriminate|contradiction].
+    pose proof (decode_events_no_panic cfg handlers sec) as H2.
+    destruct (decode_events cfg handlers sec); [discriminate|discriminate|contradiction].
+  - destruct p; try discriminate. destruct (str_eqb kind sequential); discriminate.
+  - destruct p; try discriminate. destruct (negb (str_eqb spec_hash spec_hash0)); [discriminate|].
+    destruct state0; discriminate.
+  - destruct p; try discriminate. destruct (negb (str_eqb spec_hash spec_hash0)); [discriminate|].
+    destruct state0; discriminate.
+  - destruct p; try discriminate.
+    pose proof (load_buffer_no_panic cfg icap ECapIncoming incoming) as H1.
+    destruct (load_buffer cfg icap ECapIncoming incoming); [|discriminate|contradiction].
+    pose proof (load_buffer_no_panic cfg ocap ECapOutgoing outgoing) as H2.
+    destruct (load_buffer cfg ocap ECapOutgoing outgoing); [discriminate|discriminate|contradiction].
+  - destruct p; try discriminate. apply load_storage_no_panic.
+  - destruct p; try discriminate. destruct (negb (log0 =? log2)); discriminate.
+Qed.
+
+Lemma load_entities_no_panic cfg pl s0 : load_entities_with load_buffer cfg pl s0 <> Panic.
+Proof.
+  induction s0 as [|[n e0] s0 IH]; cbn [load_entities_with]; [discriminate|].
+  destruct (lookup n pl) as [p|]; [|discriminate].
+  pose proof (load_entity_no_panic cfg e0 p) as H. unfold load_entity in H.
+  destruct (load_entity_with load_buffer cfg e0 p); [|discriminate|contradiction].
+  destruct (load_entities_with load_buffer cfg pl s0); [discriminate|discriminate|contradiction].
+Qed.
+
+Lemma read_loop_no_panic es : forall found build pl, read_loop es found build pl <> Panic.
+Proof.
+  induction es as [|e es IH]; intros found build pl; cbn [read_loop].
+  - destruct (negb found); [discriminate|]. destruct build; discriminate.
+  - destruct (te_kind e); try discriminate.
+    destruct (str_eqb (te_name e) build_id_path).
+    + destruct found; [discriminate|]. destruct (te_data e); [apply IH|discriminate].
+    + destruct (entity_name (te_name e)) as [n|]; [|discriminate].
+      destruct (mem_key n pl); [discriminate|]. destruct (te_data e); [discriminate|apply IH].
+Qed.
+
+Lemma load_all_no_panic cfg build es s0 : load_all cfg build es s0 <> Panic.
+Proof.
+  unfold load_all, load_all_with. unfold read_archive.
+  pose proof (read_loop_no_panic es false [] []) as H.
+  destruct (read_loop es false [] []) as [[b pl]|e|]; [|discriminate|contradiction].
+  destruct (negb (str_eqb b build)); [discriminate|].
+  destruct (existsb _ pl); [discriminate|]. destruct (existsb _ s0); [discriminate|].
+  apply load_entities_no_panic.
+Qed.
+
+Lemma emit_entries_no_panic seen l : emit_entries seen l <> Panic.
+Proof.
+  revert seen; induction l as [|[n p] l IH]; intros seen; cbn [emit_entries]; [discriminate|].
+  destruct (mem_str n seen); [discriminate|].
+  pose proof (IH (n :: seen)) as H.
+  destruct (emit_entries (n :: seen) l); [discriminate|discriminate|contradiction].
+Qed.
+
+Lemma save_sim_no_panic build s : save_sim build s <> Panic.
+Proof.
+  unfold save_sim, write_archive. destruct build; [discriminate|].
+  pose proof (emit_entries_no_panic [] (sort_name (save_payloads s))) as H.
+  destruct (emit_entries [] (sort_name (save_payloads s))); [discriminate|discriminate|contradiction].
+Qed.
+
+(* ------------------------------------------------------------------ strings *)
+
+Lemma str_eqb_eq a b : str_eqb a b = true <-> a = b.
+Proof. apply listN_eqb_eq. Qed.
+
+Lemma str_eqb_refl a : str_eqb a a = true.
+Proof. apply str_eqb_eq. reflexivity. Qed.
+
+Lemma str_eqb_neq a b : a <> b -> str_eqb a b = false.
+Proof. intros H. destruct (str_eqb a b) eqn:E; [|reflexivity]. apply str_eqb_eq in E. contradiction. Qed.
+
+Lemma mem_str_In x l : mem_str x l = true <-> In x l.
+Proof.
+  induction l as [|y l IH]; cbn [mem_str]; [split; [discriminate|intros []]|].
+  rewrite orb_true_iff, IH, str_eqb_eq. split; intros [H|H]; [left; symmetry; exact H|right; exact H|left; symmetry; exact H|right; exact H].
+Qed.
+
+Lemma lookup_In {A} n (l : list (str * A)) v : lookup n l = Some v -> In (n, v) l.
+Proof.
+  induction l as [|[k w] l IH]; cbn [lookup]; [discriminate|].
+  destruct (str_eqb n k) eqn:E.
+  - intros H. inversion H; subst. apply str_eqb_eq in E. subst. left. reflexivity.
+  - intros H. right. apply IH. exact H.
+Qed.
+
+Lemma mem_key_In {A} n (l : list (str * A)) : mem_key n l = true <-> In n (map fst l).
+Proof.
+  unfold mem_key. induction l as [|[k w] l IH]; cbn [lookup map fst]; [split; [discriminate|intros []]|].
+  destruct (str_eqb n k) eqn:E.
+  - apply str_eqb_eq in E. subst. split; [intros _; left; reflexivity|intros _; reflexivity].
+  - rewrite IH. split; [intros H; right; exact H|]. intros [H|H]; [|exact H]. subst. rewrite str_eqb_refl in E. discriminate.
+Qed.
+
+(* ------------------------------------------------------------------ entity loaders reject mismatches *)
+
+From Akita Require Import C07.Exec.
+
+Lemma decode_msgs_ok cfg l ms :
+  decode_msgs cfg l = Ok ms ->
+  forallb (fun v => mem_str (lv_tag v) (msg_types cfg)) l = true /\ length ms = length l.
+Proof.
+  revert ms; induction l as [|v l IH]; intros ms; cbn [decode_msgs].
+  - intros H. inversion H. split; reflexivity.
+  - destruct (mem_str (lv_tag v) (msg_types cfg)) eqn:E; cbn [negb]; [|discriminate].
+    destruct (negb (lv_ok v)); [discriminate|].
+    destruct (decode_msgs cfg l) as [t|e|]; try discriminate.
+    intros H. inversion H; subst. destruct (IH t eq_refl) as [I1 I2]. split.
+    + cbn [forallb]. rewrite E. exact I1.
+    + cbn [length]. rewrite I2. reflexivity.
+Qed.
+
+Lemma load_buffer_ok cfg cap mism bc ms :
+  load_buffer cfg cap mism bc = Ok ms ->
+  bc_cap bc = cap /\ ellist_bad cfg (bc_elems bc) = false /\ (Z.of_nat (length ms) <= cap)%Z.
+Proof.
+  unfold load_buffer. destruct (bc_cap bc =? cap)%Z eqn:Ec; cbn [negb]; [|discriminate].
+  apply Z.eqb_eq in Ec. destruct (bc_elems bc) as [l|]; [|discriminate].
+  destruct (decode_msgs cfg l) as [t|e|] eqn:Ed; try discriminate.
+  destruct (cap <? Z.of_nat (length t))%Z eqn:El; [discriminate|].
+  intros H. inversion H; subst. destruct (decode_msgs_ok cfg l ms Ed) as [I1 _].
+  split; [reflexivity|]. split; [|lia].
+  cbn [ellist_bad]. apply not_true_iff_false. intros Hb.
+  apply existsb_exists in Hb. destruct Hb as (v & Hin & Hv).
+  rewrite forallb_forall in I1. rewrite (I1 v Hin) in Hv. discriminate.
+Qed.
+
+Lemma decode_evs_ok cfg l evs :
+  decode_evs cfg l = Ok evs ->
+  forallb (fun v => mem_str (vv_tag v) (evt_types cfg)) l = true /\
+  map (fun v => option_map (fun d => snd d) (vv_dec v)) l = map (fun e => Some (e_handler e)) evs.
+Proof.
+  revert evs; induction l as [|v l IH]; intros evs; cbn [decode_evs].
+  - intros H. inversion H. split; reflexivity.
+  - destruct (mem_str (vv_tag v) (evt_types cfg)) eqn:E; cbn [negb]; [|discriminate].
+    destruct (vv_dec v) as [[[t s] h]|] eqn:Edv; [|discriminate].
+    destruct (decode_evs cfg l) as [tl|e|]; try discriminate.
+    intros H. inversion H; subst. destruct (IH tl eq_refl) as [I1 I2]. split.
+    + cbn [forallb]. rewrite E. exact I1.
+    + cbn [map]. rewrite Edv. cbn [option_map snd e_handler]. f_equal. exact I2.
+Qed.
+
+Lemma decode_events_ok cfg hs o evs :
+  decode_events cfg hs o = Ok evs -> evlist_bad cfg hs o = false.
+Proof.
+  unfold decode_events. destruct o as [l|]; [|discriminate].
+  destruct (decode_evs cfg l) as [t|e|] eqn:Ed; try discriminate.
+  destruct (forallb (fun e => mem_str (e_handler e) hs) t) eqn:Eh; [|discriminate].
+  intros H. inversion H; subst. destruct (decode_evs_ok cfg l evs Ed) as [I1 I2].
+  cbn [evlist_bad]. apply not_true_iff_false. intros Hb.
+  apply existsb_exists in Hb. destruct Hb as (v & Hin & Hv). unfold evview_bad in Hv.
+  rewrite forallb_forall in I1. rewrite (I1 v Hin) in Hv. cbn [negb orb] in Hv.
+  destruct (vv_dec v) as [[[t s] h]|] eqn:Edv; [|discriminate].
+  assert (Hh : In (Some h) (map (fun e => Some (e_handler e)) evs)).
+  { rewrite <- I2. apply in_map_iff. exists v. rewrite Edv. split; [reflexivity|exact Hin]. }
+  apply in_map_iff in Hh. destruct Hh as (e & He & Hine). inversion He; subst.
+  rewrite forallb_forall in Eh. rewrite (Eh e Hine) in Hv. discriminate.
+Qed.
+
+Lemma load_ok_no_mismatch cfg e0 p e' :
+  load_entity cfg e0 p = Ok e' -> entity_mismatch_b cfg e0 p = false.
+Proof.
+  unfold load_entity, load_entity_with. destruct e0.
+  - destruct q1; [|discriminate]. destruct q2; [|discriminate].
+    destruct p; try discriminate.
+    destruct (decode_events cfg handlers prim) as [e1|?|] eqn:E1; try discriminate.
+    destruct (decode_events cfg handlers sec) as [e2|?|] eqn:E2; try discriminate.
+    intros _. cbn [entity_mismatch_b].
+    rewrite (decode_events_ok _ _ _ _ E1), (decode_events_ok _ _ _ _ E2). reflexivity.
+  - destruct p; try discriminate. intros _. reflexivity.
+  - destruct p; try discriminate. cbn [entity_mismatch_b].
+    destruct (negb (str_eqb spec_hash spec_hash0)); [discriminate|reflexivity].
+  - destruct p; try discriminate. cbn [entity_mismatch_b].
+    destruct (negb (str_eqb spec_hash spec_hash0)); [discriminate|reflexivity].
+  - destruct p; try discriminate.
+    destruct (load_buffer cfg icap ECapIncoming incoming) as [mi|?|] eqn:E1; try discriminate.
+    destruct (load_buffer cfg ocap ECapOutgoing outgoing) as [mo|?|] eqn:E2; try discriminate.
+    intros _. cbn [entity_mismatch_b].
+    destruct (load_buffer_ok _ _ _ _ _ E1) as (A1 & A2 & _).
+    destruct (load_buffer_ok _ _ _ _ _ E2) as (B1 & B2 & _).
+    rewrite A1, B1, A2, B2, !Z.eqb_refl. reflexivity.
+  - destruct p; try discriminate. unfold load_storage. cbn [entity_mismatch_b].
+    destruct words as [|c' [|u' rest]]; try discriminate.
+    destruct (negb (c' =? cap)); [discriminate|]. destruct (negb (u' =? unit)); [discriminate|].
+    reflexivity.
+  - destruct p; try discriminate. cbn [entity_mismatch_b].
+    destruct (negb (log0 =? log2)); [discriminate|reflexivity].
+Qed.
+
+Lemma entity_mismatch_err cfg e0 p :
+  entity_mismatch_b cfg e0 p = true -> exists e, load_entity cfg e0 p = Err e.
+Proof.
+  intros H. destruct (load_entity cfg e0 p) as [e'|e|] eqn:E.
+  - rewrite (load_ok_no_mismatch _ _ _ _ E) in H. discriminate.
+  - exists e. reflexivity.
+  - exfalso. exact (load_entity_no_panic cfg e0 p E).
+Qed.
+
+(* ------------------------------------------------------------------ the per-entity loop *)
+
+Lemma load_entities_ok_inv cfg pl s0 s' :
+  load_entities_with load_buffer cfg pl s0 = Ok s' ->
+  forall n e0, In (n, e0) s0 ->
+    exists p e', lookup n pl = Some p /\ load_entity cfg e0 p = Ok e'.
+Proof.
+  revert s'; induction s0 as [|[m f0] s0 IH]; intros s' H n e0 Hin; [destruct Hin|].
+  cbn [load_entities_with] in H.
+  destruct (lookup m pl) as [p|] eqn:El; [|discriminate].
+  destruct (load_entity_with load_buffer cfg f0 p) as [f'|?|] eqn:Ef; try discriminate.
+  destruct (load_entities_with load_buffer cfg pl s0) as [t|?|] eqn:Et; try discriminate.
+  destruct Hin as [Heq|Hin].
+  - inversion Heq; subst. exists p, f'. split; [exact El|exact Ef].
+  - exact (IH t eq_refl n e0 Hin).
+Qed.
+
+Lemma load_all_ok_inv cfg build es s0 s' :
+  load_all cfg build es s0 = Ok s' ->
+  exists b pl,
+    read_archive es = Ok (b, pl) /\ b = build /\
+    (forall n, In n (map fst pl) -> In n (map fst s0)) /\
+    (forall n, In n (map fst s0) -> In n (map fst pl)) /\
+    load_entities_with load_buffer cfg pl s0 = Ok s'.
+Proof.
+  unfold load_all, load_all_with.
+  destruct (read_archive es) as [[b pl]|?|]; try discriminate.
+  destruct (str_eqb b build) eqn:Eb; cbn [negb]; [|discriminate].
+  destruct (existsb (fun np => negb (mem_key (fst np) s0)) pl) eqn:E1; [discriminate|].
+  destruct (existsb (fun ne => negb (mem_key (fst ne) pl)) s0) eqn:E2; [discriminate|].
+  intros H. exists b, pl. apply str_eqb_eq in Eb. repeat split; try assumption.
+  - intros n Hn. apply in_map_iff in Hn. destruct Hn as ([k v] & <- & Hin).
+    apply mem_key_In. cbn [fst]. destruct (mem_key k s0) eqn:Em; [reflexivity|].
+    assert (existsb (fun np => negb (mem_key (fst np) s0)) pl = true).
+    { apply existsb_exists. exists (k, v). split; [exact Hin|]. cbn [fst]. rewrite Em. reflexivity. }
+    congruence.
+  - intros n Hn. apply in_map_iff in Hn. destruct Hn as ([k v] & <- & Hin).
+    apply mem_key_In. cbn [fst]. destruct (mem_key k pl) eqn:Em; [reflexivity|].
+    assert (existsb (fun ne => negb (mem_key (fst ne) pl)) s0 = true).
+    { apply existsb_exists. exists (k, v). split; [exact Hin|]. cbn [fst]. rewrite Em. reflexivity. }
+    congruence.
+Qed.
+
+Lemma not_ok_is_err cfg build es s0 :
+  (forall s', load_all cfg build es s0 <> Ok s') -> exists e, load_all cfg build es s0 = Err e.
+Proof.
+  intros H. destruct (load_all cfg build es s0) as [s'|e|] eqn:E.
+  - exfalso. exact (H s' eq_refl).
+  - exists e. reflexivity.
+  - exfalso. exact (load_all_no_panic cfg build es s0 E).
+Qed.
+
+(** any entity whose payload disagrees with its rebuilt configuration makes the load fail *)
+Lemma entity_mismatch_rejected cfg build es s0 b pl n e0 p :
+  read_archive es = Ok (b, pl) -> In (n, e0) s0 -> lookup n pl = Some p ->
+  entity_mismatch_b cfg e0 p = true ->
+  exists e, load_all cfg build es s0 = Err e.
+Proof.
+  intros Hr Hin Hl Hm. apply not_ok_is_err. intros s' Hok.
+  destruct (load_all_ok_inv _ _ _ _ _ Hok) as (b' & pl' & Hr' & _ & _ & _ & Hload).
+  rewrite Hr in Hr'. inversion Hr'; subst.
+  destruct (load_entities_ok_inv _ _ _ _ Hload n e0 Hin) as (p' & e' & Hl' & He).
+  rewrite Hl in Hl'. inversion Hl'; subst.
+  rewrite (load_ok_no_mismatch _ _ _ _ He) in Hm. discriminate.
+Qed.
+
+Lemma build_mismatch_rejected cfg build es s0 b pl :
+  read_archive es = Ok (b, pl) -> b <> build -> load_all cfg build es s0 = Err EBuildMismatch.
+Proof.
+  intros Hr Hne. unfold load_all, load_all_with. rewrite Hr.
+  rewrite (str_eqb_neq _ _ Hne). reflexivity.
+Qed.
+
+Lemma saved_not_rebuilt_rejected cfg build es s0 pl n :
+  read_archive es = Ok (build, pl) -> In n (map fst pl) -> ~ In n (map fst s0) ->
+  load_all cfg build es s0 = Err ESavedNotRebuilt.
+Proof.
+  intros Hr Hin Hnot. unfold load_all, load_all_with. rewrite Hr, str_eqb_refl. cbn [negb].
+  replace (existsb (fun np => negb (mem_key (fst np) s0)) pl) with true; [reflexivity|].
+  symmetry. apply existsb_exists. apply in_map_iff in Hin. destruct Hin as ([k v] & <- & Hin).
+  exists (k, v). split; [exact Hin|]. cbn [fst] in *.
+  destruct (mem_key k s0) eqn:E; [|reflexivity]. apply mem_key_In in E. contradiction.
+Qed.
+
+Lemma rebuilt_missing_rejected cfg build es s0 pl n :
+  read_archive es = Ok (build, pl) -> (forall m, In m (map fst pl) -> In m (map fst s0)) ->
+  In n (map fst s0) -> ~ In n (map fst pl) ->
+  load_all cfg build es s0 = Err ERebuiltMissing.
+Proof.
+  intros Hr Hsub Hin Hnot. unfold load_all, load_all_with. rewrite Hr, str_eqb_refl. cbn [negb].
+  replace (existsb (fun np => negb (mem_key (fst np) s0)) pl) with false.
+  - replace (existsb (fun ne => negb (mem_key (fst ne) pl)) s0) with true; [reflexivity|].
+    symmetry. apply existsb_exists. apply in_map_iff in Hin. destruct Hin as ([k v] & <- & Hin).
+    exists (k, v). split; [exact Hin|]. cbn [fst] in *.
+    destruct (mem_key k pl) eqn:E; [|reflexivity]. apply mem_key_In in E. contradiction.
+  - symmetry. apply not_true_iff_false. intros Hb. apply existsb_exists in Hb.
+    destruct Hb as ([k v] & Hkin & Hk). cbn [fst] in Hk.
+    assert (In k (map fst s0)) by (apply Hsub; apply in_map_iff; exists (k, v); auto).
+    apply mem_key_In in H. rewrite H in Hk. discriminate.
+Qed.
